@@ -20,14 +20,20 @@ import numpy as np
 from vf import core
 from vf.core import CorrResult, Disagreement, Failure
 from translator import ford as tr
+from translator import fordsteady as tr_steady
+from translator import variantlist as tr_variants
 
 ID = "C01"
 PROPS = "props/C01.v"
-GENERATED = [tr.OUT]
-CASE_DEPS = ["model/Ford.vo"]
+GENERATED = [tr.OUT, tr_steady.OUT, tr_variants.OUT]
+CASE_DEPS = ["model/Ford.vo", "model/FordSteady.vo", "model/VariantList.vo"]
 ALLOWED_AXIOMS: set = set()          # every theorem is closed under the global context
 TRUSTED = [
     "translator/ford.py (tolerance predicates, classifiers, token-level scalar rules -> gen/FordGen.v)",
+    "translator/fordsteady.py (the twelve blocks of AB, FF, GG and k of solve_steady_linear_nonflat -> gen/FordSteadyGen.v; every "
+    "other statement of the function and the (linear, non-flat) dispatch are compared literally)",
+    "translator/variantlist.py (the list-filling statement of Mixin.expand_num_variants -> gen/VariantListGen.v; num_variants, "
+    "alter/shrink_num_variants, Variant.copy and the per-variant loop of _assign are compared literally)",
     "scipy.linalg.ordqz, scipy.linalg.schur, numpy.linalg.lstsq are oracles: their outputs are recorded by wrapping "
     "irispie.fords.solutions._solve_ordqz / scipy.linalg.schur from outside while the real solver runs; the theorems "
     "quantify over all oracle values satisfying the contract (Q A Z = S, Q B Z = T, Q and Z non-singular, S and T block "
@@ -62,6 +68,12 @@ MANIFEST = {
                   "system; measurement block; STABLE iff #unstable = #forward-looking, the three "
                   "eigenvalue classes partition, and the QZ ordering predicate agrees with the classifier (predicates regenerated from "
                   "fords/solutions.py); the recursion matrix has exactly the generalised eigenvalues of the pencil block ordered first. "
+                  "Steady state of linear non-flat models (solve_steady_linear_nonflat, the blocks of the stacked matrices regenerated from "
+                  "the source): any solution of the stacked systems is a steady-state PATH (transition and measurement equations at every "
+                  "date, affine in t), and the level simulation of a measurement variable equals its steady-state value plus its deviation "
+                  "simulation.  Parameter variants (the list-filling statement of expand_num_variants regenerated from the source, executed "
+                  "on an object store): after every history of alter_num_variants / assign calls no Variant object occurs twice in the "
+                  "list, and a per-variant assignment leaves variant i with its own value. "
                   "Correspondence: random models as source text -> from_string/assign/steady/solve/simulate, all 15 solution matrices, "
                   "expansions, token vectors, dynamic identities, classification and every simulated cell against the exact model.",
     "level_note": "partial. The theorems assume CURRENT-DATED shocks: one shock vector e[t] per period with one entry per shock token, "
@@ -78,7 +90,14 @@ SHOCK_BIG = 2 ** 1000      # stands for an infinite eigenvalue modulus (alpha = 
 
 
 def translate(ctx):
-    tr.run()
+    errs = []
+    for t in (tr, tr_steady, tr_variants):
+        try:
+            t.run()
+        except core.TranslatorError as e:
+            errs.append(f"{t.OUT}: {e}")
+    if errs:
+        raise core.TranslatorError("; ".join(errs))
 
 
 # ====================================================================== model generator
@@ -190,6 +209,30 @@ def add_growth(rng, base, zbar) -> dict:
     level = [float(zbar[j]) + kappa[j] * a0 for j in range(n)] + [a0]
     change = [kappa[j] * mu for j in range(n)] + [mu]
     spec["growth"] = {"trend": n, "mu": mu, "a0": a0, "kappa": kappa, "level": level, "change": change}
+    return spec
+
+
+def make_linear_growth(spec) -> dict:
+    """The balanced-growth model declared linear=True, flat=False: its growing steady state (levels and changes) is then
+    COMPUTED by steady() from the first-order system (fords/steadiers.py::solve_steady_linear_nonflat) instead of being
+    assigned.  Only for models without log-variables (a linear model has none)."""
+    assert not any(spec["logs"][:-1]) and not any(m["log"] for m in spec["meas"])
+    spec["logs"][-1] = False
+    spec["linear"] = True
+    spec["flat"] = False
+    spec["steady_solved"] = True
+    return spec
+
+
+def linear_eligible(spec) -> bool:
+    return not any(spec["logs"]) and not any(m["log"] for m in spec["meas"]) and not any(e["nl"] for e in spec["eqs"])
+
+
+def ensure_measurement(rng, spec) -> dict:
+    """at least one measurement variable, loading on a transition variable at shift 0"""
+    if not spec["meas"]:
+        spec["meas"] = [{"terms": [[rng.randrange(spec["n"]), 0, _r(rng, 0.5, 2.0)]], "const": _r(rng, -1, 1),
+                         "log": False, "wshock": None}]
     return spec
 
 
@@ -415,6 +458,22 @@ class Recorder:
 
     def __init__(self):
         self.qz = None; self.system = None; self.schur = None; self.eig = None
+        self.steady = []          # (system, (Xi, Y, dXi, dY)) of every solve_steady_linear_nonflat call
+
+    @contextlib.contextmanager
+    def active_steady(self):
+        from irispie.fords import steadiers as st
+        orig = st.solve_steady_linear_nonflat
+
+        def w(system, *a, **k):
+            out = orig(system, *a, **k)
+            self.steady.append((system, tuple(np.array(x, dtype=float) for x in out)))
+            return out
+        st.solve_steady_linear_nonflat = w
+        try:
+            yield self
+        finally:
+            st.solve_steady_linear_nonflat = orig
 
     @contextlib.contextmanager
     def active(self):
@@ -447,16 +506,18 @@ def build_model(spec):
     m = ir.Simultaneous.from_string(src, linear=spec["linear"], flat=spec["flat"])
     if params:
         m.assign(**params)
-    if spec.get("growth"):
+    rec = Recorder()
+    if spec.get("growth") and not spec.get("steady_solved"):
         # a unit root: the growing steady state is assigned (levels and changes) and verified, not solved for
         m.assign(**growth_steady_assignment(spec))
         with contextlib.redirect_stdout(io.StringIO()):
             if m.check_steady() is False:
                 raise RuntimeError("assigned balanced-growth path rejected by check_steady")
     else:
-        with contextlib.redirect_stdout(io.StringIO()):
+        # (models declared linear=True, flat=False -- also with a growing steady state -- go through
+        # solve_steady_linear_nonflat, whose input and output are recorded)
+        with contextlib.redirect_stdout(io.StringIO()), rec.active_steady():
             m.steady()
-    rec = Recorder()
     with rec.active():
         m.solve()
     return m, rec
@@ -650,7 +711,7 @@ def ctok(t) -> str:
 
 HEADER = """From Coq Require Import List ZArith QArith Bool.
 From Bignums Require Import BigQ BigZ BigN.
-From Verif Require Import lib.MxC01 gen.FordGen model.Ford.
+From Verif Require Import lib.MxC01 gen.FordGen model.Ford model.FordSteady.
 Import ListNotations.
 Import Case.
 Close Scope Q_scope.
@@ -760,6 +821,33 @@ class Bundle:
         self.checks.append(("constant", term, ["C = -(A xi + B xi_lagged) on the steady-state path"]))
         return True
 
+    # ---- stage (f): solve_steady_linear_nonflat (models declared linear=True, flat=False): the stacked systems built from
+    # the regenerated blocks vanish at what lstsq returned (the contract of the theorems, on this input) and the unsolved
+    # transition and measurement equations hold on the path level + t * change
+    def add_steady_check(self, horizon=4):
+        if not self.rec.steady:
+            return False
+        sy, (Xi, Y, dXi, dY) = self.rec.steady[-1]
+        mats = [sy.A, sy.B, sy.C, sy.F, sy.G, sy.H, Xi, dXi, Y, dY]
+        if not all(np.all(np.isfinite(np.asarray(x, dtype=float))) for x in mats):
+            return False
+        m_, n_ = sy.A.shape
+        p_ = sy.F.shape[0]
+
+        def lit(x, rows, cols):
+            x = np.asarray(x, dtype=float).reshape(rows, cols)
+            if rows == 0 or cols == 0:
+                return "([" + "; ".join("[]" for _ in range(rows)) + "], 0%Z)"
+            return raw(x)
+        args = [lit(sy.A, m_, n_), lit(sy.B, m_, n_), lit(sy.C, m_, 1), lit(sy.F, p_, p_), lit(sy.G, p_, n_), lit(sy.H, p_, 1),
+                lit(Xi, n_, 1), lit(dXi, n_, 1), lit(Y, p_, 1), lit(dY, p_, 1)]
+        term = f"SteadyCase.check_steady_nonflat {m_} {n_} {p_} {' '.join(args)} {horizon}"
+        lab = ["stacked transition row 1", "stacked transition row 2", "stacked measurement row 1", "stacked measurement row 2"]
+        for t in range(horizon):
+            lab += [f"transition equations on the steady path at t={t + 1}", f"measurement equations on the steady path at t={t}"]
+        self.checks.append(("steady_nonflat", term, lab))
+        return True
+
     # ---- stage (c)
     def add_token_check(self):
         spec, d = self.spec, self.d
@@ -852,6 +940,90 @@ def parse_nested(body: str) -> list[list[int]]:
         return []
     inner = body[1:-1]
     return [[int(x) for x in re.findall(r"\d+", part)] for part in re.findall(r"\[[^\[\]]*\]", inner)]
+
+
+# ====================================================================== histories of variant operations (exact)
+
+VARIANT_SRC = ("!transition-variables\n  x, y\n!transition-shocks\n  ex, ey\n!parameters\n  a, b, c\n"
+               "!transition-equations\n  x = a*x{-1} + ex;\n  y = b*y{+1} + c*x + ey;\n")
+VARIANT_NAMES = ["a", "b", "c"]
+
+VHEADER = """From Coq Require Import List ZArith Bool.
+From Verif Require Import lib.VarStmt gen.VariantListGen model.VariantList.
+Import ListNotations.
+Import VCase.
+Set Printing Width 1000000.
+Set Printing Depth 1000000.
+"""
+
+
+def gen_variant_history(rng) -> list:
+    """calls on ONE model object: ["alter", n] = alter_num_variants(n); ["assign", name index, values] = assign(name=values)
+    (a list: one value per variant, the last one repeated; a one-element list is passed as a scalar)"""
+    val = lambda: rng.randint(1, 999)
+    ops = [["assign", k, [val()]] for k in range(len(VARIANT_NAMES))]
+    nv = 1
+    for _ in range(rng.randint(4, 9)):
+        if rng.random() < 0.5:
+            n = rng.choice([1, 2, 3, 3, 4, 4, 5, nv + 2, nv + 3])
+            ops.append(["alter", n]); nv = n
+        else:
+            ln = rng.choice([1, nv, nv, nv, max(1, nv - 1), nv + 1])
+            ops.append(["assign", rng.randrange(len(VARIANT_NAMES)), [val() for _ in range(ln)]])
+    if nv >= 2 and rng.random() < 0.8:
+        ops.append(["assign", rng.randrange(len(VARIANT_NAMES)), [val() for _ in range(nv)]])
+    return ops
+
+
+def _identity_pattern(objs) -> list:
+    first = {}
+    out = []
+    for i, o in enumerate(objs):
+        first.setdefault(id(o), i)
+        out.append(first[id(o)])
+    return out
+
+
+def run_variant_history(ops) -> list:
+    """the implementation: after every call (identity pattern of the variants' value arrays, values of a, b, c per variant)"""
+    import irispie as ir
+    m = ir.Simultaneous.from_string(VARIANT_SRC, linear=True)
+    obs = []
+    for op in ops:
+        if op[0] == "alter":
+            m.alter_num_variants(op[1])
+        else:
+            vals = [float(v) for v in op[2]]
+            m.assign(**{VARIANT_NAMES[op[1]]: vals[0] if len(vals) == 1 else vals})
+        # two entries alias when they are one Variant object or share one array of values
+        pat_obj = _identity_pattern(m._variants)
+        pat_lev = _identity_pattern([v.levels for v in m._variants])
+        pat = [min(a, b) for a, b in zip(pat_obj, pat_lev)]
+        prm = m.get_parameters()
+        rows = []
+        for k in range(m.num_variants):
+            row = []
+            for nm in VARIANT_NAMES:
+                v = prm[nm]
+                v = v[k] if isinstance(v, (list, tuple)) else v
+                v = float("nan") if v is None else float(np.asarray(v, dtype=float).ravel()[0])
+                # never assigned (None / NaN) is the model's initial 0; assigned values are integers >= 1
+                row.append(0 if v != v else (int(v) if float(int(v)) == v else -1))
+            rows.append(row)
+        obs.append([pat, rows])
+    return obs
+
+
+def variant_case_text(cases) -> str:
+    zl = lambda l: "[" + "; ".join(f"({int(v)})%Z" for v in l) + "]"
+    nl = lambda l: "[" + "; ".join(str(int(v)) for v in l) + "]"
+    lines = [VHEADER]
+    for k, (ops, obs) in enumerate(cases):
+        o = "; ".join(f"OAlter {op[1]}" if op[0] == "alter" else f"OAssign {op[1]} {zl(op[2])}" for op in ops)
+        e = "; ".join(f"({nl(pat)}, [{'; '.join(zl(r) for r in rows)}])" for pat, rows in obs)
+        lines.append(f"Definition v{k} : list nat := check_variants {len(VARIANT_NAMES)} [{o}] [{e}].")
+    lines.append("Eval vm_compute in [" + "; ".join(f"v{k}" for k in range(len(cases))) + "].")
+    return "\n".join(lines) + "\n"
 
 
 # ====================================================================== property residuals on the implementation
@@ -993,40 +1165,156 @@ def options_invariance(spec, m, sc, db, out, span) -> list[str]:
     return bad
 
 
-def variants_check(spec, sc, factor=0.95) -> list[str] | None:
-    """Variant k of a two-variant model (different parameter values per variant) simulates like the singleton model with
-    the parameters of variant k.  None when not applicable (no parameters, growth, product terms, variant not STABLE)."""
-    import irispie as ir
+def scaled_spec(spec, factor) -> dict:
+    """the same model text with every parameter value multiplied by `factor` (rounded to 4 decimals): the model that ONE
+    parameter variant stands for"""
+    import copy
+    sp = copy.deepcopy(spec)
+    rr = (lambda c: c) if factor == 1.0 else (lambda c: round(c * factor, 4))
+    for e in sp["eqs"]:
+        e["terms"] = [[j, sh, rr(c)] for (j, sh, c) in e["terms"]]
+        e["nl"] = [[j1, s1, j2, s2, rr(c)] for (j1, s1, j2, s2, c) in e["nl"]]
+        if e["const"] != 0.0:
+            e["const"] = rr(e["const"])
+    for me in sp["meas"]:
+        me["terms"] = [[j, sh, rr(c)] for (j, sh, c) in me["terms"]]
+        if me["const"] != 0.0:
+            me["const"] = rr(me["const"])
+    return sp
+
+
+VARIANT_MODES = ["alter-then-assign", "assign-alter-assign", "stepwise"]
+
+
+def draw_variants(rng, spec):
+    """(factors, mode) for a model object with 2-4 parameter variants, every variant independently determinate; None when
+    not applicable (no parameters, growth, product terms)"""
     src, params = render_source(spec)
     if not params or spec.get("growth") or any(e["nl"] for e in spec["eqs"]):
         return None
-    pv = [dict(params), {k: round(v * factor, 4) for k, v in params.items()}]
+    nv = rng.choice([2, 3, 3, 4])
+    pool = [0.95, 0.9, 0.85, 1.03, 0.8, 0.97]
+    rng.shuffle(pool)
+    factors = [1.0]
+    for f in pool:
+        if len(factors) == nv:
+            break
+        sp = scaled_spec(spec, f)
+        if render_source(sp)[0] != src:
+            continue
+        with np.errstate(all="ignore"):
+            acc = _accept(sp)
+        if acc is None or acc[3] != acc[2] or acc[4] <= 0.03:
+            continue
+        factors.append(f)
+    if len(factors) < 2:
+        return None
+    return factors, rng.choice(VARIANT_MODES)
 
-    def solved(assign, nv):
-        mm = ir.Simultaneous.from_string(src, linear=spec["linear"], flat=spec["flat"])
-        if nv > 1:
-            mm.alter_num_variants(nv)
-        mm.assign(**assign)
+
+def variants_case(spec, sc, factors, mode) -> list | None:
+    """ONE model object with len(factors) parameter variants (variant k = the model text at scaled_spec(spec, factors[k])),
+    created by alter_num_variants in one of three ways.  For every variant k, against the parameters assigned to THAT variant:
+    the unstable-root count / verdict, every model equation on the simulated path of m.get_variant(k) (deviations from
+    perturbed initial conditions, and levels), and the column k of the simulation of the whole object against the singleton
+    model with the same parameters.  Returns Failures (keys variants:*), [] when all hold, None when not applicable."""
+    import irispie as ir
+    src, params = render_source(spec)
+    nv = len(factors)
+    specs = [scaled_spec(spec, f) for f in factors]
+    pvs = []
+    for sp in specs:
+        s_k, p_k = render_source(sp)
+        if s_k != src or set(p_k) != set(params):
+            return None
+        pvs.append(p_k)
+    accs = []
+    for sp in specs:
+        with np.errstate(all="ignore"):
+            acc = _accept(sp)
+        if acc is None or acc[3] != acc[2] or acc[4] <= 0.03:
+            return None
+        accs.append(acc)
+    lists = {k: [pv[k] for pv in pvs] for k in params}
+
+    def finish(mm):
         with contextlib.redirect_stdout(io.StringIO()):
             mm.steady()
         mm.solve()
         return mm
     try:
-        m2 = solved({k: [pv[0][k], pv[1][k]] for k in params}, 2)
-        if any(q.system_stability.name != "STABLE" for q in m2.get_solution()):
-            return None
-        singles = [solved(pv[k], 1) for k in range(2)]
+        m = ir.Simultaneous.from_string(src, linear=spec["linear"], flat=spec["flat"])
+        if mode == "alter-then-assign":
+            m.alter_num_variants(nv)
+        elif mode == "assign-alter-assign":
+            m.assign(**pvs[0]); m.alter_num_variants(nv)
+        else:
+            m.assign(**pvs[0])
+            if nv > 2:
+                m.alter_num_variants(2)
+            m.alter_num_variants(nv)
+        m.assign(**lists)
+        finish(m)
+        singles = []
+        for k in range(nv):
+            mk = ir.Simultaneous.from_string(src, linear=spec["linear"], flat=spec["flat"])
+            mk.assign(**pvs[k])
+            singles.append(finish(mk))
     except Exception:
         return None
-    bad = []
-    # deviations with perturbed initial conditions; levels from each variant's own steady state
+    if any(q.get_solution().system_stability.name != "STABLE" for q in singles):
+        return None                      # the reference models themselves: left to the singleton checks
+    where = {"spec": spec, "scenario": sc, "variants": {"factors": factors, "mode": mode, "parameters": lists}, "source": src}
+    repro = ("harness.C01.variants_case(spec, scenario, variants['factors'], variants['mode']): m = Simultaneous.from_string(source); "
+             "alter_num_variants / assign(**parameters) as `mode` says; steady(); solve(); variant k is checked against "
+             "parameters[.][k]")
+    fails = []
+
+    def add(key, what, obs, req):
+        if all(f.key != key for f in fails):
+            fails.append(Failure(key, what, where, obs, req, repro))
+    sols = m.get_solution()
+    sols = sols if isinstance(sols, list) else [sols]
+    if len(sols) != nv or m.num_variants != nv:
+        add("variants:count", "alter_num_variants(n) does not give n variants", {"num_variants": m.num_variants}, nv)
+        return fails
+    for k in range(nv):
+        nf = accs[k][2]
+        kinds = [q.name for q in sols[k].eigenvalues_stability]
+        if sols[k].system_stability.name != "STABLE" or kinds.count("UNSTABLE") != nf:
+            add("variants:verdict", f"variant {k} of {nv} is independently determinate at ITS parameters but is not reported "
+                "STABLE / its unstable-root count differs from the number of forward-looking variables",
+                {"variant": k, "system_stability": sols[k].system_stability.name, "reported_unstable": kinds.count("UNSTABLE")},
+                {"independent_unstable": accs[k][3], "forward_looking": nf})
+    if fails:
+        return fails
     for scv in (dict(sc, deviation=True), dict(sc, deviation=False, init=[])):
-        _db, out2, span = run_scenario(m2, spec, scv)
-        for k in range(2):
-            _d, outk, _s = run_scenario(singles[k], spec, scv)
-            d = _cells_differ(_span_cells(spec, out2, span, variant=k), _span_cells(spec, outk, span), 1e-9)
-            bad += [f"deviation={scv['deviation']} variant {k}: {q}"[:300] for q in d[:2]]
-    return bad
+        scv.pop("split", None)
+        try:
+            _db, out_all, span = run_scenario(m, spec, scv)
+        except Exception as e:
+            add("variants:simulate-raises", f"simulate of a model with {nv} variants raises {type(e).__name__}: {e}"[:200], None, None)
+            return fails
+        for k in range(nv):
+            mk = m.get_variant(k)
+            _d, outk, _s = run_scenario(mk, specs[k], scv)
+            vals = [series_value(outk, vname(j), p) for j in range(spec["n"]) for p in span]
+            if not all(np.isfinite(vals)):
+                add("variants:path-non-finite", f"simulated path of variant {k} of {nv} contains non-finite values",
+                    {"variant": k, "deviation": scv["deviation"]}, None)
+                continue
+            bad = property_residual(specs[k], mk, scv, outk, span, accs[k][1], accs[k][0])
+            if bad:
+                add("variants:equations-residual", f"a model equation, at the parameter values assigned to variant {k} of {nv}, "
+                    "does not hold on the simulated path of that variant (leads from the model-consistent continuation)",
+                    {"variant": k, "deviation": scv["deviation"], "residuals": bad[:4]}, "|residual| <= 2e-6")
+            _d, outs, _s = run_scenario(singles[k], specs[k], scv)
+            d = _cells_differ(_span_cells(spec, out_all, span, variant=k), _span_cells(spec, outs, span), 1e-9)
+            if d:
+                add("variants:differs-from-singleton", f"variant {k} of a {nv}-variant model does not simulate like the "
+                    "singleton model with the same parameters", {"variant": k, "deviation": scv["deviation"], "cells": d[:3]},
+                    "identical cells within 1e-9")
+    return fails
 
 
 def level_vs_deviation(spec, m, sc, tol=1e-7) -> list[str]:
@@ -1097,17 +1385,25 @@ def accept_at_model_steady(spec, m, acc):
     return V, Jc, nf, nun, dist
 
 
-def gen_determinate(rng, max_states, growth_share=0.4):
-    for _ in range(400):
+def gen_determinate(rng, max_states, growth_share=0.4, linear_growth=None):
+    """linear_growth: None = a balanced-growth model of a log-free base is declared linear=True, flat=False (steady state
+    computed by solve_steady_linear_nonflat) with probability 1/2; True = only such models, with a measurement block"""
+    for _ in range(2000 if linear_growth else 400):
         spec = gen_spec(rng, max_states)
+        if linear_growth and not linear_eligible(spec):
+            continue
         acc = _accept(spec)
         if acc is None:
             continue
         V, Jc, nf, nun, dist = acc
         if not (nun == nf and dist > 0.03):
             continue
-        if rng.random() < growth_share and not any(e["nl"] for e in spec["eqs"]):
+        if (linear_growth or rng.random() < growth_share) and not any(e["nl"] for e in spec["eqs"]):
+            if linear_growth:
+                ensure_measurement(rng, spec)
             g = add_growth(rng, spec, V)
+            if linear_eligible(spec) and (linear_growth or rng.random() < 0.5):
+                make_linear_growth(g)
             lo, hi = _shift_ranges(g)
             gacc = _accept(g)
             if sum(hi[j] - lo[j] for j in range(g["n"])) <= max_states + 2 and gacc is not None \
@@ -1163,6 +1459,8 @@ def correspondence(ctx) -> CorrResult:
         dist["max_condition"] = max(dist["max_condition"], cond)
         b.add_solution_check()
         dist["constant_checks"] = dist.get("constant_checks", 0) + int(b.add_constant_check())
+        dist["steady_nonflat_checks"] = dist.get("steady_nonflat_checks", 0) + int(b.add_steady_check())
+        dist["linear_growth_models"] = dist.get("linear_growth_models", 0) + int(bool(spec.get("steady_solved")))
         b.add_token_check()
         if not b.add_stability_check():
             dist["skipped"]["nan-eigenvalue"] = dist["skipped"].get("nan-eigenvalue", 0) + 1
@@ -1197,11 +1495,27 @@ def correspondence(ctx) -> CorrResult:
         if len(samples) < 3:
             samples.append({"source": render_source(spec)[0], "system_vector": [(t.qid, t.shift) for t in
                             b.d.system_vectors.transition_variables], "eigenvalues": [str(e) for e in b.sol.eigenvalues]})
+    # histories of alter_num_variants / assign on one model object against model/VariantList.v (exact)
+    vcases = []
+    for _ in range(ctx.scale(60, 1500)):
+        ops = gen_variant_history(rng)
+        try:
+            vcases.append((ops, run_variant_history(ops)))
+        except Exception as e:
+            res.disagreements.append(Disagreement("variant history raises", {"variant_ops": ops}, "observations after every call",
+                                                  f"{type(e).__name__}: {e}"[:300]))
+    dist["variant_histories"] = len(vcases)
+    dist["variant_history_calls"] = sum(len(o) for o, _ in vcases)
+    dist["variant_history_max_variants"] = max([len(ob[0]) for _, obs_ in vcases for ob in obs_] or [0])
     t_impl = _time.time() - t_start
     shards = [bundles[i:i + per_shard] for i in range(0, len(bundles), per_shard)]
     texts = [case_text(bs) for bs in shards]
+    vshards = [vcases[i:i + 500] for i in range(0, len(vcases), 500)]
+    texts += [variant_case_text(vs) for vs in vshards]
     t1 = _time.time()
     results = core.run_cases(ctx, texts, timeout=ctx.scale(900, 2400))
+    vresults = results[len(shards):]
+    results = results[:len(shards)]
     dist["seconds_implementation_side"] = round(t_impl, 1)
     dist["seconds_coq_side"] = round(_time.time() - t1, 1)
     res.shards = len(texts)
@@ -1228,8 +1542,24 @@ def correspondence(ctx) -> CorrResult:
             d = _confirm(b, lab, info, failing)
             if d is not None:
                 res.disagreements.append(d)
+    for k, (ok, outp) in enumerate(vresults):
+        vs = vshards[k]
+        bodies = core.parse_eval_lists(outp) if ok else []
+        got = None
+        if ok and len(bodies) == 1:
+            got = parse_nested(bodies[0]) if bodies[0].strip() not in ("[]",) else []
+        if got is None or len(got) != len(vs):
+            res.disagreements.append(Disagreement(f"variant-history shard {k} does not evaluate", None, outp[-800:], None))
+            continue
+        for (ops, obs), failing in zip(vs, got):
+            evals += len(ops)
+            if failing:
+                i = failing[0]
+                res.disagreements.append(Disagreement(
+                    f"variant history: after call {i} ({ops[i] if i < len(ops) else '?'})", {"variant_ops": ops},
+                    "model/VariantList.v: identity pattern and per-variant values differ", obs[i] if i < len(obs) else None))
     res.evaluations = evals
-    res.distinct_nontrivial = dist["scenarios"] + 3 * dist["models"]
+    res.distinct_nontrivial = dist["scenarios"] + 3 * dist["models"] + dist["variant_history_calls"]
     res.distribution = dist
     res.samples = samples
     res.rule = ("one generated determinate model (1-4 variables, lags/leads <= 3, log-variables, constants, measurement block, "
@@ -1237,7 +1567,12 @@ def correspondence(ctx) -> CorrResult:
                 "model: 15 solution matrices, the constant vector C of models not declared linear (from the steady-state path, also "
                 "a growing one: 40% of the draws are balanced-growth versions with a stochastic trend), forward expansion, token vectors + dynamic identities (exact), eigenvalue "
                 "classification, and 3 simulations (random dated unanticipated/anticipated/measurement shocks, initial "
-                "conditions, deviation in {True,False}) compared cell by cell with the exact-rational model; "
+                "conditions, deviation in {True,False}) compared cell by cell with the exact-rational model; for models declared "
+                "linear=True, flat=False (half of the balanced-growth models of a log-free base: growing steady state COMPUTED by "
+                "steady()) the recorded input and output of solve_steady_linear_nonflat against the stacked systems of "
+                "model/FordSteady.v and the equations on level + t * change, t = 0..4; plus histories of 7-13 alter_num_variants / "
+                "assign calls on one model object (1-8 variants, lists shorter / longer than the number of variants) against "
+                "model/VariantList.v after every call: identity pattern of the variants and their value arrays, values per variant (exact); "
                 "non-trivial = every scenario and every model-level check; distinct = distinct generated inputs")
     ctx.log(f"correspondence: {dist['models']} models, {dist['scenarios']} simulations, {evals} checks, "
             f"{len(res.disagreements)} disagreement(s)")
@@ -1368,6 +1703,43 @@ def lagged_shock_case(spec, sc):
     return fails
 
 
+def linear_growth_case(rng, spec, acc, scen=None) -> list:
+    """one linear, non-flat model with a growing steady state: equations on the level path, level = steady + deviation"""
+    try:
+        m, _rec = build_model(spec)
+    except Exception:
+        return []
+    if m.get_solution().system_stability.name != "STABLE":
+        return []
+    V, Jc = acc[0], acc[1]
+    src = render_source(spec)[0]
+    scen = scen or [gen_scenario(rng, spec, nper=rng.randint(4, 8))]
+    fails = []
+    repro = ("harness.C01: m, _ = build_model(spec)  [from_string(source, linear=True, flat=False); assign; steady(); solve()]; "
+             "level_vs_deviation(spec, m, scenario); run_scenario + property_residual")
+    for sc in scen:
+        sc.pop("split", None)
+        where = {"spec": spec, "scenario": sc, "scenarios": scen, "source": src,
+                 "steady_changes": {k: float(np.asarray(v).ravel()[0]) for k, v in dict(m.get_steady_changes()).items()
+                                    if np.asarray(v).size and np.isfinite(np.asarray(v, dtype=float).ravel()[0])}}
+        try:
+            bad = level_vs_deviation(spec, m, sc)
+        except Exception as e:
+            fails.append(Failure("simulate:raises", f"simulate raises {type(e).__name__}: {e}"[:200], where)); break
+        if bad:
+            fails.append(Failure("level-vs-deviation", "level simulation differs from steady state plus deviation simulation "
+                                 "(model declared linear=True, flat=False; growing steady state computed by steady())",
+                                 where, bad[:5], "equal within 1e-7", repro))
+        _db, out, span = run_scenario(m, spec, dict(sc, deviation=False))
+        bad = property_residual(spec, m, dict(sc, deviation=False), out, span, Jc, V)
+        if bad:
+            fails.append(Failure("equations:residual", "a model equation does not hold on the simulated level path of a linear "
+                                 "non-flat model with a growing steady state", where, bad[:5], "|residual| <= 2e-6", repro))
+        if fails:
+            break
+    return fails
+
+
 def falsify(ctx, hints):
     rng = ctx.rng
     fails: list[Failure] = []
@@ -1468,13 +1840,16 @@ def falsify(ctx, hints):
                     add("options:span-cells-differ", "an output option / frame-by-frame simulation changes simulated cells of the "
                         "span (prepend_input, remove_initial, remove_terminal, force_split_frames)", where, bad[:4],
                         "identical cells within 1e-9")
-                if info["models"] % 2 == 0:
-                    bad = variants_check(spec, sc)
-                    if bad is not None:
+                # one object with 2-4 parameter variants, every variant against ITS parameters
+                dv = draw_variants(rng, spec)
+                if dv is not None:
+                    fl = variants_case(spec, sc, dv[0], dv[1])
+                    if fl is not None:
                         info["variant_checks"] = info.get("variant_checks", 0) + 1
-                        if bad:
-                            add("variants:differs-from-singleton", "variant k of a two-variant model does not simulate like the "
-                                "singleton model with the same parameters", where, bad[:4], "identical cells within 1e-9")
+                        info["variants_checked"] = info.get("variants_checked", 0) + len(dv[0])
+                        for f in fl:
+                            if all(x.key != f.key for x in fails):
+                                fails.append(f)
         if len(fails) >= 6:
             break
     # 2. models an independent computation classifies as NOT determinate must not be reported STABLE
@@ -1509,6 +1884,18 @@ def falsify(ctx, hints):
         if s.system_stability.name != want:
             add("verdict:wrong-kind", "the non-determinacy kind differs from the independent root count",
                 {"spec": spec, "source": render_source(spec)[0]}, s.system_stability.name, want)
+    # 2b. models declared linear=True, flat=False with a GROWING steady state (drifting unit root) and measurement variables:
+    # the steady state (levels and changes) comes from solve_steady_linear_nonflat; level simulation = steady + deviation
+    info["linear_growth_models"] = 0
+    for _ in range(ctx.scale(5, 80)):
+        try:
+            spec, acc = gen_determinate(rng, 8, linear_growth=True)
+        except RuntimeError:
+            break
+        for f in linear_growth_case(rng, spec, acc):
+            if all(x.key != f.key for x in fails):
+                fails.append(f)
+        info["linear_growth_models"] += 1
     # 3. measurement equations that read a lead of a transition variable
     info["measurement_lead_models"] = 0
     for _ in range(ctx.scale(3, 40)):
@@ -1553,6 +1940,18 @@ def replay(ctx, failure: dict):
     spec = inp.get("spec")
     if not spec:
         return None
+    if inp.get("variants"):
+        fs = variants_case(spec, inp["scenario"], inp["variants"]["factors"], inp["variants"]["mode"]) or []
+        for f in fs:
+            if f.key == failure.get("key"):
+                return f
+        return fs[0] if fs else None
+    if spec.get("steady_solved") and failure.get("key") in ("level-vs-deviation", "equations:residual"):
+        acc = _accept(spec)
+        fs = linear_growth_case(ctx.rng, spec, acc, scen=inp.get("scenarios") or [inp["scenario"]]) if acc else []
+        for f in fs:
+            if f.key == failure.get("key"):
+                return f
     hints = {"disagreements": [{"input": {"spec": spec, "scenario": inp.get("scenario"), "scenarios": inp.get("scenarios")}}]}
 
     class _C:      # a context that generates nothing new
